@@ -1,5 +1,6 @@
 (* Executable model of geostructures/collections.py : class Track (lines 654-877), after the
-   D18 repair (default stop of an open slice = max(end) + 1 s).  No proofs in this file.
+   repairs D18 (default stop of an open slice = max(end) + 1 s) and D30 (slicing an empty Track
+   returns the empty Track).  No proofs in this file.
 
    Abstraction.  A shape in a Track is observed through
      id   which implementation object it is (position in the harness' input list; objects
@@ -75,28 +76,15 @@ Fixpoint max_end (x : item) (l : list item) : Z :=
 
 Definition slice_pred (lo hi : Z) (x : item) : bool := (lo <=? st x) && (en x <? hi).
 
-Definition slice_lo (t : track) (a : option Z) : res Z :=
-  match a with
-  | Some a' => Ok a'
-  | None => match t with x :: _ => Ok (st x) | [] => Err IndexError end   (* self.geoshapes[0] *)
-  end.
-
-Definition slice_hi (t : track) (b : option Z) : res Z :=
-  match b with
-  | Some b' => Ok b'
-  | None => match t with
-            | x :: l => Ok (max_end x l + 1000000)
-            | [] => Err ValueError                                       (* max() of nothing *)
-            end
-  end.
-
+(* `if not self.geoshapes: return Track([])` (repair D30), then the defaults: start of the
+   first shape, max(end) + 1 s *)
 Definition slice (t : track) (a b : option Z) : res track :=
-  match slice_lo t a with
-  | Err e => Err e
-  | Ok lo => match slice_hi t b with
-             | Err e => Err e
-             | Ok hi => Ok (rewrap (filter (slice_pred lo hi) t))
-             end
+  match t with
+  | [] => Ok (rewrap [])
+  | x :: l =>
+      let lo := match a with Some a' => a' | None => st x end in
+      let hi := match b with Some b' => b' | None => max_end x l + 1000000 end in
+      Ok (rewrap (filter (slice_pred lo hi) t))
   end.
 
 (* CollectionBase.filter_by_dt on a Track *)
